@@ -70,6 +70,8 @@ def units():
                  lambda m=None: __import__("checks.field_common", fromlist=["x"]).run_uniform_field(m, prefixes=("C08.", "C04.")), props=["C08", "C04"], timeout=300),
             Unit("Device.rotate / scale / translate / copy [units kept]", "tdgl.device.device:Device.rotate, Device.scale, Device.translate, Device.copy",
                  lambda m=None: __import__("checks.c18", fromlist=["x"]).run_device_transforms(m, prefixes=("C08.",)), props=["C08", "C18"], timeout=300),
+            Unit("Device.make_mesh", "tdgl.device.device:Device.make_mesh / _create_dimensionless_mesh / points / edge_lengths / areas",
+                 lambda m=None: __import__("checks.mesh_common", fromlist=["x"]).run_make_mesh(m, prefixes=("C08.",)), props=["C08", "C07"], timeout=300),
             Unit("flux per triangle", "lemma over the formula of tdgl.em:uniform_Bz_vector_potential", run_flux, props=["C08", "C04"], timeout=300),
             _h.bounded_unit("physical outputs across unit systems [bounded]", "tdgl.solve / Solution (real runs on one shared mesh)", "C08", _bounded_quick, "same_physical_outputs_in_different_unit_systems[um/mm/nm, static and ramped field]", timeout=900)]
 
